@@ -125,6 +125,12 @@ def open_findings(prop):
     return {f["id"]: f for f in findings()["findings"] if f["property"] == prop and f["status"] == "open"}
 
 
+def is_lib_exception(exc):
+    """True if the exception's traceback passes through a frame of the library under test."""
+    root = os.path.realpath(REPO) + os.sep
+    return any(os.path.realpath(f.filename).startswith(root) for f in traceback.extract_tb(exc.__traceback__))
+
+
 # --------------------------------------------------------------------------- accumulator
 def jdump(obj):
     return json.dumps(obj, sort_keys=True, separators=(",", ":"), default=_jdefault)
@@ -398,6 +404,10 @@ def fuzz(acc, target, fn, runs, nproc=None, max_len=64, corpus_seeds=()):
             raise HarnessError(f"atheris campaign {target} in {out} ended with exit code {code} without a violation file")
     acc.note(f"atheris_{target}", total)
     acc.count(f"atheris_{target}_executions", total["executions"])
+    # executions of the check function inside the fuzz target are evaluations; their non-trivial
+    # cases are NOT added to distinct_nontrivial (keys of other processes cannot be de-duplicated)
+    acc.evaluations += total["executions"]
+    acc.per_check[f"atheris:{target}"] += total["executions"]
 
 
 # --------------------------------------------------------------------------- shrinking
